@@ -48,8 +48,11 @@ Unary(x) ==
                                   /\ FormOK(SliceForms[ij[1]], s[1]) /\ FormOK(SliceForms[ij[2]], s[2])
                                   /\ (ij[1] + ij[2] + s[1]) % SliceStride = 0}}
           ELSE {})
-    \cup (IF "Annot" \in Acts /\ ShapeOf(x)[1] <= 4 /\ ShapeOf(x)[2] <= 4   \* (exact PSD test: 2^n minors)
-          THEN {N("Annot", <<x>>, [ann |-> a]): a \in {b \in AnnNames: Holds(b, Denote(x))}} ELSE {})
+    \cup (IF "Annot" \in Acts /\ ShapeOf(x)[1] <= 5 /\ ShapeOf(x)[2] <= 5
+          THEN {N("Annot", <<x>>, [ann |-> a]):
+                  a \in {b \in AnnNames: /\ (b = "SelfAdjoint" \/ (ShapeOf(x)[1] <= 4 /\ ShapeOf(x)[2] <= 4))
+                                         /\ Holds(b, Denote(x))}}   \* (exact PSD test: 2^n minors, dims <= 4)
+          ELSE {})
     \cup (IF "Gram" \in Acts
           THEN {N("GramT", <<x>>, NoP), N("GramH", <<x>>, NoP), N("GramHr", <<x>>, NoP)} ELSE {})
     \cup (IF "op_getitem" \in Acts
